@@ -156,6 +156,13 @@ def jobs(tier, seed):
                 add(src, fn, 2, d2, True, 'sees_model', B=1)
                 add(src, fn, 3, [(0, 1), (1, 2), (0, 2)] if not deg3 else [(0, 1), (1, 2), (0, 1, 2, 0)][:2] + [(0, 2)], False, 'first_set')
             add(src, fn, 2, d2, True, 'even', B=1)
+            if src == 'dict':
+                # raw dict keys: unsorted and with repeated labels (product semantics)
+                Uraw = [(0, 0, 1), (1,), (1, 0), ()] if deg3 else [(0, 0), (1, 0), (1,), ()]
+                add(src, fn, 2, Uraw, False, 'always')
+                add(src, fn, 2, Uraw, True, 'always', B=1)
+                if deg3 and tier != 'quick':
+                    add(src, fn, 3, [(0, 1, 0, 2), (2, 1), (1, 1, 1), (0,)], False, 'differ')
             if tier != 'quick' or src in ('dict', srcs[1]):
                 add(src, fn, 3, U3[1:], True, 'differ', B=1)
             if tier != 'quick':
